@@ -66,6 +66,8 @@ RULE = ("structure-aware mutation: a valid encoding of every registered struct c
         "must survive (a Go fatal error is neither a value nor an error). Each input is decoded (unknown object or named type) by the "
         "real code under recover with time and allocation accounting (every decode: at most 5 s and 2 MiB + 2 KiB per input byte + "
         "48 per byte its packed objects really inflate to) and by the Lean model with the fuel of decode_never_loops; outcome class and value compared. "
+        "c15.cost: every fourth of these inputs, every input with a packed object and every recursive-count input up to 2 KiB again with the "
+        "model's allocation cost (units, gunzip calls, bytes gunzip produced) next to the result and the real allocation judged against it. "
         "distinct = distinct operation lines")
 
 
@@ -81,7 +83,9 @@ def run(ctx):
         "compress/gzip is not modelled: the harness records what gzip makes of every packed payload occurring in an input and the model uses that table",
         "allocation and time are measured on the Go side (runtime.MemStats.TotalAlloc delta per call, bound 2 MiB + 2 KiB per input byte + 48 per byte "
         "the packed objects of the input inflate to according to compress/gzip run by the harness; 5 s per call); the Lean side proves the size guards, "
-        "the depth limit of packed objects and the fuel bound (depth of the call tree), not a cost bound",
+        "the depth limit of packed objects, the fuel bound (depth of the call tree) and - for the model's cost semantics, in allocation units - "
+        "the linear cost bound (decode_alloc_linear); c15.cost ties units to bytes: the model's cost of the operation is taken from the Lean driver "
+        "of the run and the real decode's TotalAlloc must stay below 1024*alloc + 96 KiB*gzCalls + 48*gzOut + 64 KiB (constants justified in c15cost.go)",
         "c15.nest: the stored-block gzip writer of harness and Lean driver is checked against compress/gzip on every operation; the model's gunzip "
         "for these operations is the reader of such members",
         "schema-built inputs: the schema reader, value builder and writer of harness/cmd/vh/c13e2e.go + c13groups_build.go are trusted "
